@@ -116,6 +116,14 @@ func runReplay(path string) int {
 		fmt.Printf("replay of %s: input no longer accepted by the contract's requires (%s)\n", path, note)
 		return 0
 	}
+	if doc.By.Kind == "hang" {
+		if t.Hung {
+			fmt.Printf("REPRODUCED property=%s: %s does not return on the recorded input (3 s deadline)\n", doc.Property, doc.By.Function)
+			return 1
+		}
+		fmt.Printf("replay of %s: %s returns on the recorded input now\n", path, doc.By.Function)
+		return 0
+	}
 	if doc.By.Kind == "panic" {
 		if t.Panic != "" {
 			fmt.Printf("REPRODUCED property=%s: %s panics on the recorded input: %s\n", doc.Property, doc.By.Function, t.Panic)
